@@ -43,7 +43,16 @@ unsafe impl<T: ?Sized, R: RawRwLock> RawLock for RwLock<T, R> {
 
 		// if the closure unwraps, then the mutex will be killed
 		let this = AssertUnwindSafe(self);
-		handle_unwind(|| this.raw.try_lock_exclusive(), || self.poison())
+		let locked = handle_unwind(|| this.raw.try_lock_exclusive(), || self.poison());
+
+		// the lock may have been killed during the attempt
+		if locked && self.poison.is_poisoned() {
+			// safety: we just locked it
+			self.raw.unlock_exclusive();
+			return false;
+		}
+
+		locked
 	}
 
 	unsafe fn raw_unlock_write(&self) {
@@ -77,7 +86,16 @@ unsafe impl<T: ?Sized, R: RawRwLock> RawLock for RwLock<T, R> {
 
 		// if the closure unwraps, then the mutex will be killed
 		let this = AssertUnwindSafe(self);
-		handle_unwind(|| this.raw.try_lock_shared(), || self.poison())
+		let locked = handle_unwind(|| this.raw.try_lock_shared(), || self.poison());
+
+		// the lock may have been killed during the attempt
+		if locked && self.poison.is_poisoned() {
+			// safety: we just locked it
+			self.raw.unlock_shared();
+			return false;
+		}
+
+		locked
 	}
 
 	unsafe fn raw_unlock_read(&self) {
